@@ -63,7 +63,13 @@ def cmp_cells(got, exp, what, exact=True):
     return []
 
 
-def run(t, X, fitX=None, y=None):
+def run(t, X, fitX=None, y=None, case=None):
+    if case is not None and case.get("prefit") is not None:
+        # the same object was fitted before, on a panel of other lengths: what it computes
+        # afterwards is a function of the LAST fit only
+        other = dict(case, seed=case["seed"] + 1, lengths=[max(2, v + case["prefit"]) for v in case["lengths"]])
+        _, Xo = panel(other)
+        sut(lambda: t.fit(Xo, y))
     r = sut(lambda: t.fit(X if fitX is None else fitX, y))
     if isinstance(r, Raised):
         return r
@@ -83,9 +89,11 @@ def o_pad(case, ctx):
     pl = case["pad_length"]
     fill = case["fill"]
     t = PaddingTransformer(pad_length=None if pl is None else L + pl, fill_value=fill)
+    if case.get("via_set_params"):
+        t = PaddingTransformer().set_params(pad_length=None if pl is None else L + pl, fill_value=fill)
     Lx = L if pl is None else L + pl
     ctx.mark_nontrivial(nontrivial_panel(case) or pl is not None or fill != 0)
-    r = run(t, X)
+    r = run(t, X, case=case)
     if isinstance(r, Raised):
         return [D("raised:pad:%s" % r.type, r.msg)]
     exp = [[np.concatenate([v, np.full(Lx - len(v), float(fill))]) for v in row] for row in cells]
@@ -103,9 +111,12 @@ def o_trunc(case, ctx):
         up = None if up is None else min(max(up, lo + 1), m)
     else:
         up = None
-    t = TruncationTransformer(lower=lo, upper=up)
+    if case.get("via_set_params"):
+        t = TruncationTransformer().set_params(lower=lo, upper=up)
+    else:
+        t = TruncationTransformer(lower=lo, upper=up)
     ctx.mark_nontrivial(nontrivial_panel(case) or lo is not None)
-    r = run(t, X)
+    r = run(t, X, case=case)
     if isinstance(r, Raised):
         return [D("raised:trunc:%s" % r.type, "lower=%s upper=%s: %s" % (lo, up, r.msg))]
     if lo is None:
@@ -124,7 +135,7 @@ def o_interp(case, ctx):
     L = case["length"]
     t = TSInterpolator(L)
     ctx.mark_nontrivial(nontrivial_panel(case) or True)
-    r = run(t, X)
+    r = run(t, X, case=case)
     if isinstance(r, Raised):
         return [D("raised:interp:%s" % r.type, r.msg)]
     exp = [[np.interp(np.linspace(0, 1, L), np.linspace(0, 1, len(v)), v) for v in row] for row in cells]
@@ -136,7 +147,7 @@ def o_tab(case, ctx):
 
     cells, X = panel(case)
     ctx.mark_nontrivial(case["c"] >= 2)
-    r = run(Tabularizer(), X)
+    r = run(Tabularizer(), X, case=case)
     if isinstance(r, Raised):
         return [D("raised:tab:%s" % r.type, r.msg)]
     exp = np.array([np.concatenate(row) for row in cells])
@@ -151,7 +162,7 @@ def o_cc(case, ctx):
 
     cells, X = panel(case)
     ctx.mark_nontrivial(case["c"] >= 2)
-    r = run(ColumnConcatenator(), X)
+    r = run(ColumnConcatenator(), X, case=case)
     if isinstance(r, Raised):
         return [D("raised:cc:%s" % r.type, r.msg)]
     exp = [[np.concatenate(row)] for row in cells]
@@ -182,7 +193,7 @@ def o_paa(case, ctx):
     ctx.mark_nontrivial(n_t % m != 0 or case["c"] >= 2)
     if n_t % m != 0:
         ctx.label("fractional_frames")
-    r = run(PAA(num_intervals=m), X)
+    r = run(PAA(num_intervals=m), X, case=case)
     if isinstance(r, Raised):
         return [D("raised:paa:%s" % r.type, "n=%d m=%d: %s" % (n_t, m, r.msg))]
     exp = [[paa_ref(v, m) for v in row] for row in cells]
@@ -211,7 +222,7 @@ def o_iseg(case, ctx):
             pieces.append((s, e))
         arg = np.array(pieces)
         ctx.mark_nontrivial(True)
-    r = run(IntervalSegmenter(arg), X)
+    r = run(IntervalSegmenter(arg), X, case=case)
     if isinstance(r, Raised):
         return [D("raised:iseg:%s" % r.type, "intervals=%r: %s" % (arg, r.msg))]
     exp = [[row[0][s:e] for (s, e) in pieces] for row in cells]
@@ -227,7 +238,7 @@ def o_riseg(case, ctx):
     cells, X = panel(case)
     t = RandomIntervalSegmenter(n_intervals=case["k"], random_state=case["seed"] % 1000)
     ctx.mark_nontrivial(True)
-    r = run(t, X)
+    r = run(t, X, case=case)
     if isinstance(r, Raised):
         return [D("raised:riseg:%s" % r.type, r.msg)]
     iv = [(int(s), int(e)) for s, e in t.intervals_]
@@ -244,7 +255,7 @@ def o_swseg(case, ctx):
     cells, X = panel(case)
     w = case["window_length"]
     ctx.mark_nontrivial(w != 5)
-    r = run(SlidingWindowSegmenter(w), X)
+    r = run(SlidingWindowSegmenter(w), X, case=case)
     if isinstance(r, Raised):
         return [D("raised:swseg:%s" % r.type, r.msg)]
     h = w // 2
@@ -270,7 +281,7 @@ def o_rife(case, ctx):
     feats = {"default": None, "mean_std": [np.mean, np.std], "mean_std_max": [np.mean, np.std, np.max]}[case["features"]]
     t = RandomIntervalFeatureExtractor(n_intervals=case["k"], features=feats, random_state=case["seed"] % 1000)
     ctx.mark_nontrivial(feats is not None)
-    r = run(t, X)
+    r = run(t, X, case=case)
     if isinstance(r, Raised):
         return [D("raised:rife:%s" % r.type, r.msg)]
     iv = [(int(s), int(e)) for s, e in t.intervals_]
@@ -291,7 +302,7 @@ def o_rows(case, ctx):
     cells, X = panel(case)
     ctx.mark_nontrivial(case["c"] >= 2)
     discs = []
-    r = run(SeriesToPrimitivesRowTransformer(MeanTransformer()), X)
+    r = run(SeriesToPrimitivesRowTransformer(MeanTransformer()), X, case=case)
     if isinstance(r, Raised):
         discs.append(D("raised:s2prow:%s" % r.type, r.msg))
     else:
@@ -299,7 +310,7 @@ def o_rows(case, ctx):
         got = np.asarray(r, dtype=float)
         if got.shape != exp.shape or not np.allclose(got, exp, rtol=1e-12, atol=1e-12):
             discs.append(D("values:s2prow", "got %s expected %s" % (got.tolist(), exp.tolist())))
-    r = run(SeriesToSeriesRowTransformer(CosineTransformer()), X)
+    r = run(SeriesToSeriesRowTransformer(CosineTransformer()), X, case=case)
     if isinstance(r, Raised):
         discs.append(D("raised:s2srow:%s" % r.type, r.msg))
     else:
@@ -321,7 +332,7 @@ def o_rowcount(case, ctx):
     perm = list(reversed(range(n)))
     for name, t in (("slope", SlopeTransformer(2)), ("dslope", DerivativeSlopeTransformer()), ("dwt", DWTTransformer()),
                     ("hog", HOG1DTransformer(num_intervals=2, num_bins=4))):
-        r = run(t, X)
+        r = run(t, X, case=case)
         if isinstance(r, Raised):
             discs.append(D("raised:%s:%s" % (name, r.type), r.msg))
             continue
@@ -499,6 +510,7 @@ def panel_cases(draw, unequal=False, max_c=3, min_len=2, extra=None):
             "scale": draw(st.sampled_from([1.0, 0.01, 100.0]))}
     for k, s in (extra or {}).items():
         case[k] = draw(s)
+    case["prefit"] = draw(st.sampled_from([None, None, -3, -1, 2, 5]))
     return case
 
 
@@ -515,8 +527,8 @@ def subchecks():
     i = st.integers
     S = lambda name, orc, strat, q=300: SubCheck(name, orc, strat, quick=q, thorough=q * 20, shards_quick=1, shards_thorough=4)  # noqa: E731
     return [
-        S("padding", o_pad, panel_cases(unequal=True, extra={"pad_length": st.one_of(st.none(), i(0, 6)), "fill": st.sampled_from([0, 0, -1, 3.5])})),
-        S("truncation", o_trunc, panel_cases(unequal=True, min_len=3, extra={"lower": st.one_of(st.none(), i(0, 10)), "upper": st.one_of(st.none(), i(1, 20))})),
+        S("padding", o_pad, panel_cases(unequal=True, extra={"pad_length": st.one_of(st.none(), i(0, 6)), "fill": st.sampled_from([0, 0, -1, 3.5]), "via_set_params": st.booleans()})),
+        S("truncation", o_trunc, panel_cases(unequal=True, min_len=3, extra={"lower": st.one_of(st.none(), i(0, 10)), "upper": st.one_of(st.none(), i(1, 20)), "via_set_params": st.booleans()})),
         S("interpolation", o_interp, panel_cases(unequal=True, extra={"length": i(1, 25)})),
         S("tabularizer", o_tab, panel_cases()),
         S("column_concatenator", o_cc, panel_cases()),
